@@ -67,42 +67,56 @@ theorem C01_laws_spelled_out (D : List Nat → Prop) (trs : List Tr) (ent : Ent)
 
 /-- the encoder never takes its two error exits before the entropy coder on blocks a stream can hold:
 `Log2NoCheck(0)` needs a post-transform length that is a multiple of 2^32, and the test "Invalid block
-data length" (`dataSize > 4`) is dead code (`Log2NoCheck(uint32(x)) ≤ 31`) -/
-theorem C01_encode_errors (copy : Bool) (trs : List Tr) (ent : Ent) (ckw sum : Nat) (b : List Nat)
-    (h : (seqForward (fwdStages trs b.length) b).1.length < 2 ^ 32) :
-    encodeWith copy trs ent ckw sum b ≠ .error .panic ∧ encodeWith copy trs ent ckw sum b ≠ .error .length := by
-  cases he : ent.enc (seqForward (fwdStages trs b.length) b).1 with
+data length" (`dataSize > 4`) is dead code (`Log2NoCheck(uint32(x)) ≤ 31`).  (`fallback`: the block handed
+to the entropy coder after the bound of fix F43 on the post-transform length.) -/
+theorem C01_encode_errors (copy : Bool) (trs : List Tr) (ent : Ent) (ckw sum : Nat) (lim : Option Nat)
+    (b : List Nat)
+    (h : (fallback lim (seqMaxLen trs b.length) b (seqForward (fwdStages trs b.length) b)).1.length < 2 ^ 32) :
+    encodeWith copy trs ent ckw sum lim b ≠ .error .panic ∧
+      encodeWith copy trs ent ckw sum lim b ≠ .error .length := by
+  cases he : ent.enc (fallback lim (seqMaxLen trs b.length) b (seqForward (fwdStages trs b.length) b)).1 with
   | none =>
-    unfold encodeWith
+    unfold encodeWith encodeOf
     simp only [dataSizeGen_eq _ h]
     have h4 := dataSizeOf_le _ h
     rw [if_neg (by omega), if_neg (by omega), he]
     exact ⟨by simp, by simp⟩
   | some e =>
-    rw [encodeWith_eq copy trs ent ckw sum b e h he]
+    rw [encodeWith_eq copy trs ent ckw sum lim b e h he]
     exact ⟨by simp, by simp⟩
+
+/-- fix F43 (/repo dfafae0): when `MaxEncodedLen` of the sequence exceeds `maxLength` (the decoder's bound
+`maxTransformLength` for the block size stored in the ctx, 2^30 without it) and the transformed block is
+longer than `maxLength`, the block is handed to the entropy coder untransformed with every stage flagged as
+skipped; otherwise the output of the sequence is used as it is -/
+theorem C01_fallback_spelled_out (lim : Option Nat) (req : Nat) (b : List Nat) (f : List Nat × Nat) :
+    fallback lim req b f =
+      (if req > maxLengthOf lim ∧ f.1.length > maxLengthOf lim then (b, 0xFF) else f) ∧
+    (∀ B, maxLengthOf (some B) = maxTransformLength B) ∧ maxLengthOf none = 2 ^ 30 :=
+  ⟨rfl, fun _ => rfl, rfl⟩
 
 /-! ## 2. instances with no remaining hypothesis -/
 
 /-- **C01_codec_small_none.**  Every chain of 1 to 8 transforms (0 is covered too) drawn from
 NullTransform (NONE), ZRLT, SBRT in any mode (MTFT = mode 1, RANK = mode 2; repeats allowed), entropy
 NONE, every checksum width, skipBlocks on or off, every block size B ≤ 2^30 and every block of 1..B
-bytes: decode (encode b) = b with `decoded = |b|`. -/
-theorem C01_codec_small_none (ck : Nat) (trs : List Tr) (sb : Bool) (B : Nat) (b : List Nat)
+bytes, whatever `ctx["blockSize"]` holds (`bs`: the bound of fix F43 never applies to these transforms, and
+would be harmless): decode (encode b) = b with `decoded = |b|`. -/
+theorem C01_codec_small_none (ck : Nat) (trs : List Tr) (sb : Bool) (bs : Option Nat) (B : Nat) (b : List Nat)
     (hn : trs.length ≤ 8) (hs : ∀ t ∈ trs, IsSmallTr t)
     (hbytes : ∀ x ∈ b, x < 256) (h0 : 0 < b.length) (hB : b.length ≤ B) (hmax : B ≤ 2 ^ 30) :
-    ∃ p, encodeTaskGen ⟨ck, trs, noneEnt, sb⟩ b = .ok p ∧
-      decodeTaskGen ⟨ck, trs, noneEnt, sb⟩ B p = ⟨b.length, .ok b⟩ :=
-  small_roundtrip ⟨ck, trs, noneEnt, sb⟩ B b hn hs (entLaw_none _) hbytes h0 hB hmax
+    ∃ p, encodeTaskGen ⟨ck, trs, noneEnt, sb, bs⟩ b = .ok p ∧
+      decodeTaskGen ⟨ck, trs, noneEnt, sb, bs⟩ B p = ⟨b.length, .ok b⟩ :=
+  small_roundtrip ⟨ck, trs, noneEnt, sb, bs⟩ B b hn hs (entLaw_none _) hbytes h0 hB hmax
 
 /-- **C01_codec_small_ans0.**  The same chains with the order-0 ANS codec as the factory builds it
 (`C12_ans0_block` with chunks of 16384 bytes and log range 12). -/
-theorem C01_codec_small_ans0 (ck : Nat) (trs : List Tr) (sb : Bool) (B : Nat) (b : List Nat)
+theorem C01_codec_small_ans0 (ck : Nat) (trs : List Tr) (sb : Bool) (bs : Option Nat) (B : Nat) (b : List Nat)
     (hn : trs.length ≤ 8) (hs : ∀ t ∈ trs, IsSmallTr t)
     (hbytes : ∀ x ∈ b, x < 256) (h0 : 0 < b.length) (hB : b.length ≤ B) (hmax : B ≤ 2 ^ 30) :
-    ∃ p, encodeTaskGen ⟨ck, trs, ans0Ent, sb⟩ b = .ok p ∧
-      decodeTaskGen ⟨ck, trs, ans0Ent, sb⟩ B p = ⟨b.length, .ok b⟩ :=
-  small_roundtrip ⟨ck, trs, ans0Ent, sb⟩ B b hn hs (entLaw_ans0 _) hbytes h0 hB hmax
+    ∃ p, encodeTaskGen ⟨ck, trs, ans0Ent, sb, bs⟩ b = .ok p ∧
+      decodeTaskGen ⟨ck, trs, ans0Ent, sb, bs⟩ B p = ⟨b.length, .ok b⟩ :=
+  small_roundtrip ⟨ck, trs, ans0Ent, sb, bs⟩ B b hn hs (entLaw_ans0 _) hbytes h0 hB hmax
 
 /-- the stage hypothesis of the instances, spelled out; and the names of the transform factory:
 NONE = 0, ZRLT = 6, MTFT = 7 (SBRT mode 1), RANK = 8 (SBRT mode 2) -/
@@ -136,9 +150,9 @@ theorem C01_small_dst_independent (t : Tr) (h : IsSmallTr t) (b : List Nat) (req
 /-! ## 3. NONE / NONE: the generic model is the model of `Kanzi/Model/Block.lean` -/
 
 /-- the generic encoder with the NONE sequence and the NONE entropy codec writes `encodeNone` -/
-theorem C01_gen_none_encode (ck : Nat) (data : List Nat) (h0 : 0 < data.length) (h32 : data.length < 2 ^ 32) :
+theorem C01_gen_none_encode (ck : Nat) (data : List Nat) (h0 : 0 < data.length) (h30 : data.length ≤ 2 ^ 30) :
     encodeTaskGen (noneCfg ck) data = .ok (encodeNone ck data) :=
-  encodeTaskGen_none ck data h0 h32
+  encodeTaskGen_none ck data h0 h30
 
 /-- the generic decoder with the NONE sequence and the NONE entropy codec is `decodeTask`, on EVERY
 payload (well formed or not; error classes: entropy / inverse failures are `eos` = ERR_PROCESS_BLOCK) -/
@@ -149,7 +163,7 @@ theorem C01_gen_none_decode (ck B : Nat) (p : Bits) :
 /-- and the generic stream image of a NONE / NONE stream is `streamImage` (so `C01_none_end_to_end` and
 the `image` correspondence stream are statements about the generic model too) -/
 theorem C01_gen_none_image (h : Header) (ck : Nat) (blocks : List (List Nat))
-    (hv : ∀ b ∈ blocks, 0 < b.length ∧ b.length < 2 ^ 32) :
+    (hv : ∀ b ∈ blocks, 0 < b.length ∧ b.length ≤ 2 ^ 30) :
     streamImageGen h (noneCfg ck) blocks = .ok (streamImage h ck blocks) :=
   streamImageGen_none h ck blocks hv
 
@@ -210,8 +224,8 @@ theorem C01_stream_image_small_ans0_partial (h : Header) (wf : WF h) (cd : Cfg)
   obtain ⟨e, _, h8, _⟩ : ∃ e, True ∧ 8 ≤ p.length ∧ True := by
     unfold encodeTaskGen at hp
     split at hp
-    · obtain ⟨e, _, h8, _⟩ := encodeWith_shape _ _ _ _ _ _ _ hp; exact ⟨e, trivial, h8, trivial⟩
-    · obtain ⟨e, _, h8, _⟩ := encodeWith_shape _ _ _ _ _ _ _ hp; exact ⟨e, trivial, h8, trivial⟩
+    · obtain ⟨e, _, h8, _⟩ := encodeWith_shape _ _ _ _ _ _ _ _ hp; exact ⟨e, trivial, h8, trivial⟩
+    · obtain ⟨e, _, h8, _⟩ := encodeWith_shape _ _ _ _ _ _ _ _ hp; exact ⟨e, trivial, h8, trivial⟩
   exact ⟨⟨p, hp, hd, by omega, Nat.lt_of_le_of_lt hf (maxFrameBits_lt _), hf⟩, h0, hB⟩
 
 /-- size of an order-0 ANS block as the factory configures the codec (chunks of 16384 bytes, log range
@@ -300,8 +314,8 @@ theorem C01_gen_end_to_end_ans0_partial (h : Header) (wf : WF h) (cd : Cfg)
   have h8 : 8 ≤ p.length := by
     unfold encodeTaskGen at hp
     split at hp
-    · obtain ⟨e, _, h8, _⟩ := encodeWith_shape _ _ _ _ _ _ _ hp; exact h8
-    · obtain ⟨e, _, h8, _⟩ := encodeWith_shape _ _ _ _ _ _ _ hp; exact h8
+    · obtain ⟨e, _, h8, _⟩ := encodeWith_shape _ _ _ _ _ _ _ _ hp; exact h8
+    · obtain ⟨e, _, h8, _⟩ := encodeWith_shape _ _ _ _ _ _ _ _ hp; exact h8
   exact ⟨p, hp, hd, by omega, Nat.lt_of_le_of_lt hf (maxFrameBits_lt _), hf⟩
 
 /-- **C01_gen_end_to_end_ans0**: entropy ANS0 (or NONE), block sizes up to 128 KiB: no codec
@@ -345,7 +359,7 @@ example : (seqForward (fwdStages [zrltTr, sbrtTr 1] 3) [9, 8, 0xFF]).2 = 0xBF :=
 
 /-- the frame-size hypothesis of the `_partial` theorems is decidable block by block (here: 40 bytes of
 a single value through ZRLT+ANS0, a 12-byte payload) -/
-example : (payloadOf ⟨0, [zrltTr], ans0Ent, false⟩ (List.replicate 40 7)).length ≤ maxFrameBits 1024 := by
+example : (payloadOf ⟨0, [zrltTr], ans0Ent, false, some 1024⟩ (List.replicate 40 7)).length ≤ maxFrameBits 1024 := by
   set_option maxRecDepth 100000 in decide
 
 end Kanzi.C01gen
